@@ -290,6 +290,22 @@ func (h *clientConfigSessionHandler) flushQueuedPluginMessagesTo(serverConn *ser
 	return nil
 }
 
+// reconfigure prepares the handler for another configuration phase (server switch
+// or backend-initiated reconfiguration of a client that is in the play state).
+func (h *clientConfigSessionHandler) reconfigure(target *serverConnection) {
+	// The previous phase completed this future. Left completed, the backend's
+	// FinishedUpdate would be acknowledged right away instead of after the client
+	// acknowledged it, and config packets the client still sends would reach a
+	// backend that is already in the play state.
+	h.configSwitchDone = future.Future[any]{}
+	// The previous phase's server is still recorded as the ready one, so plugin
+	// messages for the new target would be queued for a flush that only happens at
+	// the initial login. The target is past its login: flush and forward directly.
+	if target != nil {
+		_ = h.flushQueuedPluginMessagesTo(target)
+	}
+}
+
 func (h *clientConfigSessionHandler) handleKnownPacks(p *config.KnownPacks, pc *proto.PacketContext) {
 	serverConn := h.player.connectionInFlightOrConnectedServer()
 	if serverConn == nil {
